@@ -51,6 +51,9 @@ def run(ctx):
     ctx.do(rule_sets_and_numbers)
     ctx.do(rule_copy_complete)
     ctx.do(rule_distinct_bindings)
+    from .pitfalls import rule_groupby_sorted, rule_single_use_iterators
+    ctx.do(rule_groupby_sorted, "C09.iterator-pitfalls", ("stix2.equivalence.pattern",))
+    ctx.do(rule_single_use_iterators, "C09.iterator-pitfalls", ("stix2.equivalence.pattern",))
     from .hidden_state import rule_no_hidden_state
     ctx.do(rule_no_hidden_state, "C09.history-independence")
 
